@@ -70,9 +70,9 @@ type R struct {
 	Absorbed int // failures absorbed by (try …)
 	Forced   int // thunks forced
 	// observations for the non-triviality rules
-	EscapedCalls int            // closure applied after the activation that created it had returned
-	Activations  map[*N]int     // calls per function literal
-	live         map[*Env]bool  // running activations
+	EscapedCalls int           // closure applied after the activation that created it had returned
+	Activations  map[*N]int    // calls per function literal
+	live         map[*Env]bool // running activations
 }
 
 func mkList(v []V) V {
